@@ -1,7 +1,7 @@
 (* C19 -- Scan-motor masking acts only inside the listed intervals, on the defined pixels.
    Statements only; proofs in Proofs/P_C19.v.  Interval tables regenerated from the source (ms since 1970). *)
 From Coq Require Import String ZArith QArith List Bool Arith.
-From PV Require Import M_Tsm Gen_Tsm Gen_Consts P_C19.
+From PV Require Import M_Tsm Gen_Tsm Gen_Consts Spec_Tables P_C19.
 Import ListNotations.
 Open Scope Z_scope.
 
@@ -17,6 +17,11 @@ Theorem C19_tabled_spacecraft :
   lookup_name 2 klm_spacecraft_names = Some "noaa16"%string /\
   pod_tsm_ids = [3] /\ klm_tsm_ids = [2; 4].
 Proof. exact tabled_spacecraft. Qed.
+(* the intervals in the source are the published ones (frozen copy spec/tables.json) *)
+Theorem C19_listed_intervals : tsm_pod = spec_tsm_pod /\ tsm_klm = spec_tsm_klm.
+Proof. split; vm_compute; reflexivity. Qed.
+Print Assumptions C19_listed_intervals.
+
 Theorem C19_other_spacecraft : forall table sc first last, assoc sc table = None -> is_tsm_affected table sc first last = false.
 Proof. exact untabled. Qed.
 
